@@ -28,12 +28,20 @@ func main() {
 		genC02(*out, *tier, *seed)
 	case "C03":
 		genC03(*out, *tier, *seed)
+	case "C04":
+		genC04(*out, *tier, *seed)
 	case "C05":
 		genC05(*out, *tier, *seed)
 	case "C07":
 		genC07(*out, *tier, *seed)
 	case "C08":
 		genC08(*out, *tier, *seed)
+	case "C09":
+		genC09(*out, *tier, *seed)
+	case "C10":
+		genC10(*out, *tier, *seed)
+	case "C11":
+		genC11(*out, *tier, *seed)
 	case "C12":
 		genC12(*out, *tier, *seed)
 	case "C13":
@@ -47,6 +55,12 @@ func main() {
 	default:
 		fmt.Fprintln(os.Stderr, "unknown property", *prop)
 		os.Exit(2)
+	}
+	if reuseAll.N > 0 {
+		meta.GoOnly = append(meta.GoOnly, reuseAll)
+	}
+	if effectsAll.N > 0 && *prop != "C02" { // C02 reports the effects of all streams itself
+		meta.GoOnly = append(meta.GoOnly, effectsAll)
 	}
 	writeMeta(*out)
 	total := 0
